@@ -495,7 +495,12 @@ class Replayer:
 
     def do_CvIntegrate(self, live, a):
         from compmec.nurbs.calculus import Integrate
-        return {"I": Integrate.scalar(live[a["obj"]])}
+        kw = {}
+        if a.get("method", "default") != "default":
+            kw["method"] = a["method"]
+        if a.get("nnodes", 0):
+            kw["nnodes"] = a["nnodes"]
+        return {"I": Integrate.scalar(live[a["obj"]], **kw)}
 
     def do_IntegrateFn(self, live, a):
         from compmec.nurbs.calculus import Integrate
@@ -531,16 +536,19 @@ class Replayer:
         src = self.curve_from(a["src"])
         S.fit_function(lambda u: src(u))
 
-    def polyline(self, c):
+    def polyline(self, c, elev=0):
         import numpy as np
         U = [float(fr(x)) for x in c["U"]]
         pts = [np.array([float(fr(x)), float(fr(y))]) for x, y in zip(c["X"], c["Y"])]
-        return self.Curve(U, pts)
+        curve = self.Curve(U, pts)
+        if elev:  # the same polyline stored with a higher degree (a reducible representation)
+            curve.degree_increase(elev)
+        return curve
 
     def do_GeoProject(self, live, a):
         import numpy as np
         from compmec.nurbs.advanced import Projection
-        C = self.polyline(a["curve"])
+        C = self.polyline(a["curve"], a.get("elev", 0))
         snap = (tuple(C.knotvector), [tuple(p) for p in C.ctrlpoints])
         P = (float(fr(a["px"])), float(fr(a["py"])))
         r = with_timeout(lambda: Projection.point_on_curve(P, C), 20)
@@ -549,7 +557,7 @@ class Replayer:
 
     def do_GeoIntersect(self, live, a):
         from compmec.nurbs.advanced import Intersection
-        A, B = self.polyline(a["A"]), self.polyline(a["B"])
+        A, B = self.polyline(a["A"], a.get("elev", 0)), self.polyline(a["B"])
         snap = lambda c: (tuple(c.knotvector), [tuple(p) for p in c.ctrlpoints])
         sa, sb = snap(A), snap(B)
         r = with_timeout(lambda: Intersection.curve_and_curve(A, B), 30)
@@ -819,8 +827,13 @@ class Replayer:
         return f
 
     def cmp_CvIntegrate(self, live, t, val):
-        ok, msg = self._point_ok(val["I"], t["ret"]["val"])
-        return [] if ok else [f"integral: {msg}"]
+        a = t["act"]
+        want = t["ret"]["val"]
+        if a.get("method", "default") in ("default", "closed-newton-cotes", "open-newton-cotes") and self.mode.exact:
+            ok, msg = self._point_ok(val["I"], want)      # rational rules on rational data: exact
+        else:
+            ok, msg = close(val["I"], fr(want)), f"got {val['I']!r}, spec {float(fr(want))!r}"
+        return [] if ok else [f"integral ({a.get('method', 'default')}, nnodes {a.get('nnodes', 0) or 'default'}): {msg}"]
 
     def cmp_IntegrateFn(self, live, t, val):
         a = t["act"]
@@ -1098,6 +1111,10 @@ class Replayer:
         if len(got) != len(want):
             return [f"{len(got)} pieces, spec {len(want)}"]
         f = []
+        # the pieces are new curves: mutating them must not reach the operand (checked after the comparison)
+        operand = live[t["act"]["obj"]]
+        if any(g is operand for g in got):
+            f.append("aliasing: a returned piece is the operand itself")
         for i, (g, w) in enumerate(zip(got, want)):
             try:
                 pg = self.project(g)
@@ -1108,6 +1125,16 @@ class Replayer:
             w2["kind"] = "cv"
             if not self.same_obj(pg, w2):
                 f.append(f"piece {i}: got {pg}, spec {w}")
+        if not f:
+            before = self.project(operand)
+            try:
+                for g in got:
+                    g.degree_increase(1)
+                    g.ctrlpoints = [3 * p + 1 for p in g.ctrlpoints]
+            except Exception as e:
+                f.append(f"aliasing: mutating a piece raised {type(e).__name__}: {e}")
+            if not self.same_obj(self.project(operand), before):
+                f.append("aliasing: mutating a returned piece changed the operand")
         return f
 
 
@@ -1138,7 +1165,7 @@ def has_nar(x):
 
 
 def _replay_one(t, parent, replayer):
-    if has_nar(t["ret"]) or has_nar(t["post"]) or has_nar(t.get("obs")) or has_nar(t["pre"]):
+    if t.get("ovf") or has_nar(t["ret"]) or has_nar(t["post"]) or has_nar(t.get("obs")) or has_nar(t["pre"]):
         return ["__unknown__"]
     # path from an initial state to t.pre
     path = []
